@@ -233,6 +233,14 @@ def gen_case(seed, idx, tier):
         words = ["--help-arg=" + k2] if form == "eq" or k2.startswith("-") else ["--help-arg", k2]
         sid = c.add("c18", lambda sid, w=words: argh.scenario_text(sid, "help-arg", cfg, w))
         c.meta["runs"].append(("help-arg", sid, words, a, k, None))
+    if cfg.subgroup is not None:
+        # the argument that opens the sub-group is an argument of this handler too: asking for its help prints its description
+        pseudo = Arg("sg0", "G", "yy-group")
+        pseudo.desc = "sub group"
+        k = rng.choice(["G", "yy-group"])
+        words = ["--help-arg=" + k] if rng.random() < 0.5 else ["--help-arg", k]
+        sid = c.add("c18", lambda sid, w=words: argh.scenario_text(sid, "help-arg-sub-group-key", cfg, w))
+        c.meta["runs"].append(("help-arg", sid, words, pseudo, k, None))
     unk = rng.choice(["zz", "Q", "no-such-key", "H"])
     words = ["--help-arg=" + unk]
     sid = c.add("c18", lambda sid, w=words: argh.scenario_text(sid, "help-arg-unknown", cfg, w))
